@@ -285,13 +285,16 @@ int __wrap_timerfd_settime(int fd, int flags, const struct itimerspec *nv, struc
 {
 	struct vk_fd *v = vk_open(fd);
 
-	(void)flags;
 	(void)ov;
 	if (v == NULL || v->kind != VK_TIMERFD) {
 		errno = EBADF;
 		return -1;
 	}
 	v->deadline = (long long)nv->it_value.tv_sec * 1000000000LL + nv->it_value.tv_nsec;
+	/* like the kernel: without TFD_TIMER_ABSTIME a non-zero value is an interval from now (the trace shows the
+	   effective absolute deadline; the model, like the library, always asks for an absolute one) */
+	if (!(flags & TFD_TIMER_ABSTIME) && v->deadline != 0)
+		v->deadline += vk_clock;
 	v->fired = 0;
 	vk_trace("K tfd=%lld", v->deadline);
 	return 0;
